@@ -41,7 +41,9 @@ Record inventory := mk_inv {
   inv_ground : list name;                   (* the ground components (leaves of inv_reads) *)
   inv_derivs : list opinfo;
   inv_mutators : list opinfo;               (* successful AND failed variants *)
-  inv_preserved : list name }.              (* ground components a derived handle inherits unchanged *)
+  inv_preserved : list name;                (* ground components a derived handle inherits unchanged *)
+  inv_obs_writes : list (name * list name) }.  (* observer (method / module-level function taking the handle) -> the attributes
+                                                whose cached OBJECT it mutates in place (item assignment, .remove/.pop/..., del) *)
 
 Definition mem (a : name) (l : list name) : bool := existsb (String.eqb a) l.
 
@@ -79,7 +81,8 @@ Definition all_ops (inv : inventory) : list opinfo := inv_derivs inv ++ inv_muta
 
 Definition inventory_ok (inv : inventory) : bool :=
   forallb (op_ok inv) (all_ops inv) &&
-  forallb (fun d => disjointb (op_writes d) (inv_preserved inv)) (inv_derivs inv).
+  forallb (fun d => disjointb (op_writes d) (inv_preserved inv)) (inv_derivs inv) &&
+  forallb (fun p => match snd p with [] => true | _ => false end) (inv_obs_writes inv).     (* observers do not write *)
 
 (* the offending (operation, attribute) pairs - what the check reports when it fails *)
 Definition offenders (inv : inventory) : list (name * name) :=
@@ -88,7 +91,8 @@ Definition offenders (inv : inventory) : list (name * name) :=
                                         | _ => []
                                         end) (inv_memos inv)) (all_ops inv)
   ++ flat_map (fun d => map (fun c => (op_name d, c)) (filter (fun c => mem c (inv_preserved inv)) (op_writes d)))
-              (inv_derivs inv).
+              (inv_derivs inv)
+  ++ flat_map (fun p => map (fun a => (fst p, a)) (snd p)) (inv_obs_writes inv).
 
 (* ------------------------------------------------------------------------------------------
    Semantics: programs over a store of live handles.                                          *)
@@ -110,9 +114,16 @@ Section Sem.
     then mk_h (gr h) (fun b => if String.eqb b a then Some (lookup h a) else memo h b)
     else h.
 
-  (* an observer reads some attributes and answers with a function of them and of the ground state *)
-  Definition observe (h : handle) (reads : list name) (f : list X -> ground -> X) : handle * X :=
-    (fold_left fill reads h, f (map (lookup h) reads) (gr h)).
+  (* in-place mutation of the object cached as attribute `a` (`scr` = what the mutation does to the cached value) *)
+  Definition obs_writes_of (ob : name) : list name :=
+    match assoc ob (inv_obs_writes inv) with Some l => l | None => [] end.
+  Definition scribble (scr : X -> X) (h : handle) (a : name) : handle :=
+    mk_h (gr h) (fun b => if String.eqb b a then option_map scr (memo h b) else memo h b).
+
+  (* an observer `ob` reads some attributes and answers with a function of them and of the ground state; it is NOT assumed
+     pure: whatever the inventory says it mutates in place is scribbled over (arbitrary `scr`) *)
+  Definition observe (h : handle) (ob : name) (reads : list name) (f : list X -> ground -> X) (scr : X -> X) : handle * X :=
+    (fold_left (scribble scr) (obs_writes_of ob) (fold_left fill reads h), f (map (lookup h) reads) (gr h)).
 
   Definition apply_op (o : opinfo) (arg : A) (h : handle) : handle :=
     let g' := eff (op_name o) arg (gr h) in
@@ -125,13 +136,13 @@ Section Sem.
                       else None).
 
   Inductive step :=
-  | SObs (i : nat) (reads : list name) (f : list X -> ground -> X)
+  | SObs (i : nat) (ob : name) (reads : list name) (f : list X -> ground -> X) (scr : X -> X)
   | SDerive (i : nat) (o : opinfo) (arg : A)       (* new handle appended to the store *)
   | SMutate (i : nat) (o : opinfo) (arg : A).      (* handle i edited in place (also the failed variants) *)
 
   Definition step_ok (s : step) : Prop :=
     match s with
-    | SObs _ _ _ => True
+    | SObs _ _ _ _ _ => True
     | SDerive _ o _ => In o (inv_derivs inv)
     | SMutate _ o _ => In o (inv_mutators inv)
     end.
@@ -145,10 +156,10 @@ Section Sem.
 
   Definition run1 (s : step) (st : list handle) : list handle * list X :=
     match s with
-    | SObs i reads f =>
+    | SObs i ob reads f scr =>
       match nth_error st i with
       | None => (st, [])
-      | Some h => let (h', ans) := observe h reads f in (replace i h' st, [ans])
+      | Some h => let (h', ans) := observe h ob reads f scr in (replace i h' st, [ans])
       end
     | SDerive i o arg =>
       match nth_error st i with
@@ -172,7 +183,7 @@ Section Sem.
   (* the specification: no memo table, every answer recomputed from the ground state *)
   Definition spec1 (s : step) (gs : list ground) : list ground * list X :=
     match s with
-    | SObs i reads f =>
+    | SObs i _ reads f _ =>
       match nth_error gs i with
       | None => (gs, [])
       | Some g => (gs, [f (map (fun a => compute a g) reads) g])
